@@ -49,3 +49,42 @@ func VH_C20_fift_malformed(L int) {
 	zzvrt.Cover("rejected", err != nil)
 	zzvrt.Cover("accepted", err == nil)
 }
+
+// The same round trip at the long end of the domain (up to the 1023 bits a cell can hold): the leading
+// bytes follow a fixed pattern, the last two bytes (which decide the completion tag and the final hex
+// digits) are arbitrary.
+func VH_C20_fift_roundtrip_long(n int) {
+	nb := (n + 7) / 8
+	buf := make([]byte, nb)
+	for i := 0; i < nb; i++ {
+		buf[i] = byte(i*37 + 11)
+	}
+	tail := zzvrt.NondetBytes("tail", 2)
+	buf[nb-2], buf[nb-1] = tail[0], tail[1]
+	s := BitString{buf: buf, cap: n, len: n}
+	snap := make([]byte, nb)
+	copy(snap, buf)
+	txt := s.ToFiftHex()
+	want := (n + 3) / 4
+	if n%4 != 0 {
+		want++
+	}
+	zzvrt.Assert("text-length", len(txt) == want)
+	back, err := BitStringFromFiftHex(txt)
+	zzvrt.Assert("parses", err == nil && back != nil)
+	if back != nil {
+		zzvrt.Assert("same-length", back.len == n)
+		for p := 0; p < n; p++ {
+			zzvrt.Assert("same-bits", vRefBit(back.buf, p) == vRefBit(snap, p))
+		}
+	}
+	js, err := s.MarshalJSON()
+	zzvrt.Assert("json-ok", err == nil && len(js) == len(txt)+2 && js[0] == '"' && js[len(js)-1] == '"')
+	var t BitString
+	zzvrt.Assert("json-parses", t.UnmarshalJSON(js) == nil && t.len == n)
+	for p := 0; p < n && p < t.len; p++ {
+		zzvrt.Assert("json-same-bits", vRefBit(t.buf, p) == vRefBit(snap, p))
+	}
+	zzvrt.Cover("reached", true)
+	zzvrt.ObserveInt("textlen", len(txt))
+}
